@@ -278,11 +278,11 @@ theorem null_resets (k : Kind) (hk : k ∈ kinds) (e : SetEntry) (he : e ∈ k.s
 
 /-- the `log` alias of axis `intervals` is gone after the reset -/
 theorem null_clears_log (tab : List NamedColor) (o : Obj) (tok : Nat) (hw : WF axis o) :
-    ∀ f g bit, Act.intervals f g bit ∈ axis.sets.map (·.act) →
-      hasBit ((Act.run axis tab (.intervals f g bit) o .null tok).obj.get g).toInt bit = false := by
-  intro f g bit hmem
+    ∀ f g bit cn, Act.intervals f g bit cn ∈ axis.sets.map (·.act) →
+      hasBit ((Act.run axis tab (.intervals f g bit cn) o .null tok).obj.get g).toInt bit = false := by
+  intro f g bit cn hmem
   have hm : f = 5 ∧ g = 7 ∧ bit = 32 := by
-    revert hmem; simp [axis]
+    revert hmem; simp only [axis]; simp; intro a b c _; exact ⟨a, b, c⟩
   obtain ⟨rfl, rfl, rfl⟩ := hm
   unfold Act.run
   simp only []
